@@ -150,6 +150,24 @@ Theorem C01_smiles_invariant_discrete_partial_children : forall (w : Z -> Z) (o 
 Proof. exact children_order_weights_only. Qed.
 Print Assumptions C01_smiles_invariant_discrete_partial_children.
 
+(* since fix 2e3e6bb the neighbours of atom p are sorted by key_child_at g .. p = (weight part, order of the bond to p, tb);
+   key_child above is the weight part followed by tb.  With injective weights the bond order is never reached: the children
+   order does not depend on the molecule's bond orders, the parent, the tie-break priority or the set iteration order *)
+Theorem C01_smiles_invariant_discrete_partial_children_at : forall (w : Z -> Z) (o : opts) (all : list Z), inj_on all w ->
+  forall (g g2 : mol) (tb tb' : Z -> Z) (seen : list (Z * Z)) (p p2 : Z) (l l' : list Z), incl l all -> Permutation l l' ->
+  sort_by (key_child_at g w tb o all seen p) l = sort_by (key_child_at g2 w tb' o all seen p2) l'.
+Proof. exact children_at_order_weights_only. Qed.
+Print Assumptions C01_smiles_invariant_discrete_partial_children_at.
+
+Theorem C01_smiles_invariant_discrete_partial_children_at_equivariant :
+  forall (w w' : Z -> Z) (o : opts) (all : list Z) (s : Z -> Z),
+  inj_on all w -> (forall n, In n all -> w' (s n) = w n) ->
+  forall (g g' : mol) (p p' : Z) (tb tb' : Z -> Z) (seen seen' : list (Z * Z)) (l l' : list Z), incl l all -> Permutation (map s l) l' ->
+  (forall n, In n all -> zget seen' (s n) = zget seen n) ->
+  sort_by (key_child_at g' w' tb' o (map s all) seen' p') l' = map s (sort_by (key_child_at g w tb o all seen p) l).
+Proof. exact children_at_order_equivariant. Qed.
+Print Assumptions C01_smiles_invariant_discrete_partial_children_at_equivariant.
+
 (* renumbering (s is injective on the atoms as a consequence of the two hypotheses): the start atom of the renumbered
    molecule is the image of the start atom ... *)
 Theorem C01_smiles_invariant_discrete_partial_start_equivariant :
@@ -198,8 +216,8 @@ Theorem C01_canonical_children_structure_only :
   wf_mol g = true -> inj_on (ids g) s -> mol_perm (ren_mol s g) g' -> atoms_order h ring g = Ok l -> NoDup (map snd l) ->
   forall (tb tb' : Z -> Z) (o : opts) (seen seen' : list (Z * Z)) (n : Z),
   In n (ids g) -> (forall x, In x (ids g) -> zget seen' (s x) = zget seen x) ->
-  sort_by (key_child (lbl (ren_labels s l)) tb' o (ids g') seen') (nbr_ids g' (s n)) =
-  map s (sort_by (key_child (lbl l) tb o (ids g) seen) (nbr_ids g n)).
+  sort_by (key_child_at g' (lbl (ren_labels s l)) tb' o (ids g') seen' (s n)) (nbr_ids g' (s n)) =
+  map s (sort_by (key_child_at g (lbl l) tb o (ids g) seen n) (nbr_ids g n)).
 Proof. exact canonical_children_structure_only. Qed.
 Print Assumptions C01_canonical_children_structure_only.
 
@@ -213,8 +231,8 @@ Print Assumptions C01_smiles_invariant_discrete_partial_bfs.
 
 (* the `while stack:` loop of the DFS: spanning tree, predecessor table, ring-closure pairs and their numbers *)
 Theorem C01_smiles_invariant_discrete_partial_dfs : forall (s : Z -> Z), (forall x y, s x = s y -> x = y) ->
-  forall (g : mol) (all : list Z) (key key' : Z -> list Z), (forall n, incl (nbr_ids g n) all) ->
-  (forall l, incl l all -> sort_by key' (map s l) = map s (sort_by key l)) ->
+  forall (g : mol) (all : list Z) (key key' : Z -> Z -> list Z), (forall n, incl (nbr_ids g n) all) ->
+  (forall p l, incl l all -> sort_by (key' (s p)) (map s l) = map s (sort_by (key p) l)) ->
   forall (fuel : nat) (st : dfs_st),
   iter_opt fuel (dfs_step (ren_mol s g) key') (ren_dfs s st) = option_map (ren_dfs s) (iter_opt fuel (dfs_step g key) st).
 Proof. exact dfs_ren. Qed.
